@@ -406,6 +406,36 @@ fn enumerate(_tier: Tier, idx: u32, of: u32, cx: &mut Cx) -> CaseResult {
     if !crate::probes::mine(idx, of) {
         return Ok(());
     }
+    // names that are not valid UTF-8 beside ordinary ones (left out by conserve): whatever is
+    // written must conform -- in particular no path twice
+    {
+        use crate::ops;
+        let m = crate::probes::plain_meta();
+        let mut t = Tree::empty_root(tree::Meta { mode: 0o755, ..m });
+        t.0.insert("/notes".into(), tree::Node { kind: Kind::Dir, meta: tree::Meta { mode: 0o755, ..m } });
+        for (name, pool, len) in [("/a", 2u8, 10u32), ("/notes/caf", 3, 20), ("/notes/z", 4, 30), ("/z", 5, 5)] {
+            t.0.insert(name.into(), tree::Node { kind: Kind::File { pool, len }, meta: m });
+        }
+        for hunk in [1usize, 100] {
+            let sub = cx.dir("undecodable-names");
+            crate::engine::force_remove(&sub);
+            std::fs::create_dir_all(&sub).unwrap();
+            let (src, arch) = (sub.join("src"), sub.join("arch"));
+            tree::materialise(&t, &src);
+            tree::add_undecodable_twins(&t, &src, "/notes");
+            tree::add_undecodable_twins(&t, &src, "/");
+            ensure!(ops::create_archive(&arch).clean(), "C13/create", "probe");
+            let b = ops::backup(&arch, &None, &src, Opts { hunk, block: 1000, cap: 100 }, &[]);
+            ensure!(b.panic.is_none() && b.result.is_ok(), "C13/probe-undecodable-names/backup", "{}", b.describe());
+            check_conformance(&format::scan(&arch), &BTreeMap::new(), false).map_err(|mut f| {
+                f.signature = format!("{}/probe-undecodable-names", f.signature);
+                f
+            })?;
+            crate::engine::force_remove(&sub);
+            cx.add_evals(1);
+            cx.inner_nontrivial += 1;
+        }
+    }
     for (name, (opts, tree)) in [
         ("many-hunks", crate::probes::many_hunks_tree(10_012)),
         ("big-blocks", crate::probes::big_blocks_tree()),
